@@ -12,6 +12,11 @@
    Switches for behaviour the code has:
      RestoreReplaces = FALSE : processSnapshot only ADDS datasets that are missing - it
                                never removes a dataset and never updates an existing one (as shipped)
+                       TRUE  : the restored catalogue replaces the node's catalogue.  (The repaired code
+                               adds and removes datasets; replica-set changes of a dataset it already knows
+                               are not taken from the snapshot but re-derived by the allocator from the
+                               membership snapshot - observed consistent in the real-server scenario
+                               "lagging-leave", not modelled here.)
      WireFirst       = FALSE : the zero group's apply loop is started before the
                                catalogue consumer is registered; entries applied in
                                between are dropped (as shipped: server.go setup) *)
